@@ -336,7 +336,7 @@ def run(tier, seed, part=None):
         # shutdown() lands while they are parked (and must not wait for a stream that never drains)
         "stalled-heartbeat-and-command": A + [["stall"], ["tick"], ["cmd"], ["tick"]],
     }
-    cap = 50 if tier == "quick" else 900
+    cap = 50 if tier == "quick" else 300
     for gen in (4, 5):
         for name, script in scripts.items():
             params = {"gen": gen, "script": script, "max_tick": 99}
